@@ -123,11 +123,13 @@ fn roa_content(cover: &str, fam: &str, pol: &str) -> Vec<u8> {
     };
     // per family: two prefixes inside atom a1 (its lower half with a max length, its upper half), a prefix outside (atom a2),
     // the prefix one bit less specific than a1
-    let inside = |six: bool| if six { vec![pfx(0x2001_0db8u128 << 96, 49, Some(50)), pfx(0x2001_0db8_0000_8000u128 << 64, 49, None)] }
-                             else { vec![pfx(0x0A00_0000u128 << 96, 25, Some(26)), pfx(0x0A00_0080u128 << 96, 25, None)] };
+    // (plus a host prefix - the longest prefix length its family has - with and without a max length)
+    let inside = |six: bool| if six { vec![pfx(0x2001_0db8u128 << 96, 49, Some(50)), pfx(0x2001_0db8_0000_8000u128 << 64, 49, None), pfx((0x2001_0db8u128 << 96) | 0x77, 128, Some(128))] }
+                             else { vec![pfx(0x0A00_0000u128 << 96, 25, Some(26)), pfx(0x0A00_0080u128 << 96, 25, None), pfx(0x0A00_004Du128 << 96, 32, None)] };
     // (under the trimming policy the certificate's validated IPv4 resources include atom a2, so "outside" moves on to 10.0.4.0/24)
     let outside = |six: bool| if six { pfx(0x2001_0db8_0002u128 << 80, 48, None) } else if pol == "trim" { pfx(0x0A00_0400u128 << 96, 24, None) } else { pfx(0x0A00_0200u128 << 96, 24, None) };
-    let wider = |six: bool| if six { pfx(0x2001_0db8u128 << 96, 47, None) } else { pfx(0x0A00_0000u128 << 96, 23, None) };
+    // (the less specific prefix carries a max length that reaches down to the covered one: it is the prefix that has to be covered)
+    let wider = |six: bool| if six { pfx(0x2001_0db8u128 << 96, 47, Some(48)) } else { pfx(0x0A00_0000u128 << 96, 23, Some(24)) };
     let six = fam.starts_with("v6");
     let mut main = inside(six);
     // the second piece the trimmed certificate ends up with (atom a2, 10.0.2.0/23): a prefix in there is covered as well
